@@ -1,25 +1,7 @@
 (* C16 — the general multipart/form-data round trip: parse (generate parts boundary) boundary = parts *)
 From Coq Require Import Arith.
-From Rws Require Import Str Utf8 Num Request Forms StrLemmas TrimLemmas Utf8Lemmas C16Proof.
+From Rws Require Import Str Utf8 Num Request Forms FormsDomain StrLemmas TrimLemmas Utf8Lemmas C16Proof.
 Open Scope N_scope.
-
-(* ---------- the domain ---------- *)
-Definition pchar (c : N) : bool := N.leb 33 c && N.leb c 126.          (* printable ASCII, not a blank *)
-Definition vchar (c : N) : bool := N.leb 32 c && N.leb c 126.          (* printable ASCII *)
-Definition mh_ok (h : header) : bool :=
-  negb (beqs (hname h) []) && forallb (fun c => pchar c && negb (N.eqb c 58)) (hname h)
-  && forallb vchar (hvalue h) && (match hvalue h with [] => true | c :: _ => pchar c end) && (match rev (hvalue h) with [] => true | c :: _ => pchar c end).
-Definition bd_ok (bd : list N) : bool := forallb pchar bd && negb (beqs (strip_hyphens bd) []).
-Definition hdr_line (h : header) : list N := hname h ++ COLON_SP ++ hvalue h ++ CRLF.
-Definition hdr_text (h : header) : list N := hname h ++ match hvalue h with [] => [58] | v => COLON_SP ++ v end.     (* the line, trimmed *)
-(* no line of the data is taken for a delimiter *)
-Fixpoint lines_ok (fuel : nat) (esc : list N) (s : list N) : bool :=
-  match fuel with O => true | S f =>
-  match s with [] => true | _ => let (l, r) := split_line s in negb (is_delim l esc) && lines_ok f esc r end end.
-Definition part_ok (bd : list N) (p : part) : bool :=
-  negb (match p_headers p with [] => true | _ => false end) && forallb mh_ok (p_headers p)
-  && forallb (fun h => negb (is_boundary_line (hdr_text h) bd)) (p_headers p)
-  && lines_ok (S (length (p_body p ++ CRLF))) (strip_hyphens bd) (p_body p ++ CRLF).
 
 (* ---------- characters ---------- *)
 Lemma pchar_facts c : pchar c = true -> 33 <= c <= 126 /\ solid c = true /\ is_ascii_control c = false /\ N.ltb c 128 = true.
@@ -185,4 +167,192 @@ Proof.
     cbn [flat_map]. rewrite <- app_assoc. rewrite header_step; auto.
     + rewrite IH; auto; [rewrite <- app_assoc; reflexivity|rewrite <- app_assoc; exact Hne|cbn [length] in Hf; lia].
     + destruct (flat_map hdr_line hs ++ CRLF ++ rest) eqn:E; [|discriminate]. apply app_eq_nil in E as [_ E]. discriminate.
+Qed.
+
+(* ---------- the body phase ---------- *)
+Lemma split_line_app_lf : forall X Y, In 10 X -> split_line (X ++ Y) = (fst (split_line X), snd (split_line X) ++ Y).
+Proof.
+  induction X as [|c X IH]; intros Y Hi; [contradiction|].
+  cbn [app split_line]. destruct (N.eqb_spec c 10) as [->|Hc]; [reflexivity|].
+  destruct Hi as [Hi|Hi]; [congruence|]. rewrite (IH Y Hi). destruct (split_line X) as [l r]. reflexivity.
+Qed.
+Definition ends_lf (X : list N) : Prop := X = [] \/ exists X', X = X' ++ [10].
+Lemma ends_lf_tail X : ends_lf X -> X <> [] -> In 10 X /\ ends_lf (snd (split_line X)).
+Proof.
+  intros [->|[X' ->]] Hne; [contradiction|]. split; [apply in_or_app; right; left; reflexivity|].
+  clear Hne. induction X' as [|c X' IH].
+  - cbn. left. reflexivity.
+  - cbn [app split_line]. destruct (N.eqb c 10); [right; exists X'; reflexivity|].
+    destruct (split_line (X' ++ [10])) as [l r]. exact IH.
+Qed.
+
+Lemma body_phase_step f esc s acc : s <> [] ->
+  body_phase (S f) esc s acc = let (line, rest') := split_line s in if is_delim line esc then BFound acc rest' else body_phase f esc rest' (acc ++ line).
+Proof. destruct s; [contradiction|reflexivity]. Qed.
+Lemma body_lines esc dl rest : split_line (dl ++ rest) = (dl, rest) -> is_delim dl esc = true -> dl <> [] ->
+  forall f X acc, (length X < f)%nat -> lines_ok f esc X = true -> ends_lf X ->
+  body_phase f esc (X ++ dl ++ rest) acc = BFound (acc ++ X) rest.
+Proof.
+  intros Hdl Hd Hne. induction f as [|f IH]; intros X acc Hf Hok Hlf; [lia|].
+  destruct X as [|c X].
+  - cbn [app]. rewrite body_phase_step by (destruct dl; [contradiction|discriminate]). rewrite Hdl, Hd, app_nil_r. reflexivity.
+  - destruct (ends_lf_tail (c :: X) Hlf ltac:(discriminate)) as [Hin Htail].
+    cbn [lines_ok] in Hok. rewrite body_phase_step by discriminate.
+    rewrite (split_line_app_lf (c :: X) (dl ++ rest) Hin).
+    destruct (split_line (c :: X)) as [l r] eqn:Es. cbn [fst snd] in *. apply andb_prop in Hok as [Hl Hr]. apply negb_true_iff in Hl. rewrite Hl.
+    pose proof (split_line_app (c :: X)) as Happ. rewrite Es in Happ.
+    pose proof (split_line_length (c :: X) ltac:(discriminate)) as Hlen. rewrite Es in Hlen. cbn [snd] in Hlen.
+    rewrite IH by (auto; cbn [length] in *; lia). rewrite <- app_assoc, <- Happ. reflexivity.
+Qed.
+
+(* ---------- delimiter lines ---------- *)
+Record bd_facts (bd : list N) : Prop := {
+  bf_esc : strip_hyphens bd <> [];
+  bf_solid : forallb solid bd = true;
+  bf_noctl : forallb (fun c => negb (is_ascii_control c)) bd = true;
+  bf_ascii : is_ascii bd = true;
+  bf_nolf : ~ In 10 bd /\ ~ In 13 bd;
+  bf_nonempty : bd <> [] }.
+Lemma bd_ok_facts bd : bd_ok bd = true -> bd_facts bd.
+Proof.
+  unfold bd_ok. intro H. apply andb_prop in H as [Hp He]. apply negb_true_iff in He.
+  assert (P : forall c, In c bd -> pchar c = true) by (intros c Hc; exact (forallb_in _ _ _ Hp Hc)).
+  constructor.
+  - intro E. rewrite E in He. discriminate.
+  - apply forallb_forall. intros c Hc. apply pchar_facts, P, Hc.
+  - apply forallb_forall. intros c Hc. destruct (pchar_facts c (P c Hc)) as (_ & _ & G & _). rewrite G. reflexivity.
+  - unfold is_ascii. apply forallb_forall. intros c Hc. apply pchar_facts, P, Hc.
+  - split; intro Hi; apply P, pchar_facts in Hi; lia.
+  - intro E. subst bd. discriminate.
+Qed.
+Lemma ends_with_refl s : ends_with s s = true.
+Proof. unfold ends_with. rewrite <- (app_nil_r (rev s)) at 2. apply prefixb_app. Qed.
+Lemma delim_filter bd : ~ In 10 bd -> ~ In 13 bd -> filter (fun c => negb (N.eqb c 45 || N.eqb c 13 || N.eqb c 10)) bd = strip_hyphens bd.
+Proof.
+  unfold strip_hyphens, remove_byte. induction bd as [|c bd IH]; intros N10 N13; [reflexivity|].
+  cbn [filter]. assert (c <> 10 /\ c <> 13) as [H10 H13] by (split; intro E; [apply N10|apply N13]; left; auto).
+  replace (N.eqb c 13) with false by (symmetry; apply N.eqb_neq; exact H13). replace (N.eqb c 10) with false by (symmetry; apply N.eqb_neq; exact H10).
+  rewrite !orb_false_r. rewrite IH; [reflexivity|intro Hi; apply N10; right; exact Hi|intro Hi; apply N13; right; exact Hi].
+Qed.
+Lemma delim_mid bd rest : bd_facts bd -> split_line ((bd ++ CRLF) ++ rest) = (bd ++ CRLF, rest) /\ is_delim (bd ++ CRLF) (strip_hyphens bd) = true.
+Proof.
+  intro F. destruct (bf_nolf bd F) as [N10 N13]. split.
+  - unfold CRLF. replace ((bd ++ [13; 10]) ++ rest) with ((bd ++ [13]) ++ 10 :: rest) by (rewrite <- !app_assoc; reflexivity).
+    rewrite split_line_nolf; [rewrite <- app_assoc; reflexivity|]. intro Hi. apply in_app_or in Hi as [Hi|Hi]; [contradiction|]. cbn in Hi. destruct Hi as [Hi|[]]. discriminate.
+  - unfold is_delim. destruct (strip_hyphens bd) as [|x t] eqn:E; [exfalso; exact (bf_esc bd F E)|]. rewrite <- E.
+    rewrite filter_app. change (filter (fun c => negb (N.eqb c 45 || N.eqb c 13 || N.eqb c 10)) CRLF) with (@nil N). rewrite app_nil_r.
+    rewrite delim_filter by assumption. apply ends_with_refl.
+Qed.
+Lemma split_line_nolf_all s : ~ In 10 s -> split_line s = (s, []).
+Proof. induction s as [|c s IH]; intro H; [reflexivity|]. cbn [split_line]. destruct (N.eqb_spec c 10) as [->|Hc]; [exfalso; apply H; left; reflexivity|]. rewrite IH by (intro Hi; apply H; right; exact Hi). reflexivity. Qed.
+Lemma delim_last bd : bd_facts bd -> split_line (bd ++ []) = (bd, []) /\ is_delim bd (strip_hyphens bd) = true.
+Proof.
+  intro F. destruct (bf_nolf bd F) as [N10 N13]. split; [rewrite app_nil_r; apply split_line_nolf_all, N10|].
+  unfold is_delim. destruct (strip_hyphens bd) as [|x t] eqn:E; [exfalso; exact (bf_esc bd F E)|]. rewrite <- E.
+  rewrite delim_filter by assumption. apply ends_with_refl.
+Qed.
+Lemma bd_first_line bd : bd_facts bd -> truncate_nl_cr (filter_ascii_control (bd ++ CRLF)) = bd /\ truncate_nl_cr (filter_ascii_control bd) = bd /\ is_boundary_line bd bd = true.
+Proof.
+  intro F. destruct (bf_nolf bd F) as [N10 N13].
+  assert (T : trim bd = bd) by (apply trim_all_solid, (bf_solid bd F)).
+  assert (E2 : filter_ascii_control bd = bd) by (unfold filter_ascii_control; rewrite (noctl_filter _ (bf_noctl bd F)); exact T).
+  assert (E1 : filter_ascii_control (bd ++ CRLF) = bd).
+  { unfold filter_ascii_control. rewrite filter_app, (noctl_filter _ (bf_noctl bd F)). change (filter (fun c => negb (is_ascii_control c)) CRLF) with (@nil N). rewrite app_nil_r. exact T. }
+  rewrite E1, E2. rewrite truncate_clean by assumption. repeat split. unfold is_boundary_line. apply ends_with_refl.
+Qed.
+
+(* ---------- the loop over the parts ---------- *)
+Definition tailf (bd : list N) (ps : list part) : list N := flat_map (fun p => CRLF ++ gen_part p ++ CRLF ++ bd) ps.
+Definition part_text (p : part) : list N := flat_map hdr_line (p_headers p) ++ CRLF ++ p_body p.
+Lemma gen_part_text p : gen_part p = part_text p.
+Proof. reflexivity. Qed.
+
+Record part_facts (bd : list N) (p : part) : Prop := {
+  pf_headers : p_headers p <> [];
+  pf_mh : Forall mh_facts (p_headers p);
+  pf_nodelim : Forall (fun h => is_boundary_line (hdr_text h) bd = false) (p_headers p);
+  pf_lines : lines_ok (S (length (p_body p ++ CRLF))) (strip_hyphens bd) (p_body p ++ CRLF) = true }.
+Lemma part_ok_facts bd p : part_ok bd p = true -> part_facts bd p.
+Proof.
+  unfold part_ok. intro H. apply andb_prop in H as [H Hl]. apply andb_prop in H as [H Hd]. apply andb_prop in H as [Hh Hm].
+  constructor.
+  - intro E. rewrite E in Hh. discriminate.
+  - apply Forall_forall. intros h Hi. apply mh_ok_facts. exact (forallb_in _ _ _ Hm Hi).
+  - apply Forall_forall. intros h Hi. apply negb_true_iff. exact (forallb_in _ _ _ Hd Hi).
+  - exact Hl.
+Qed.
+
+Lemma lines_ok_more esc : forall f1 f2 X, (length X < f1)%nat -> (length X < f2)%nat -> lines_ok f1 esc X = lines_ok f2 esc X.
+Proof.
+  induction f1 as [|f1 IH]; intros f2 X H1 H2; [lia|]. destruct f2 as [|f2]; [lia|]. cbn [lines_ok]. destruct X as [|c X]; [reflexivity|].
+  pose proof (split_line_length (c :: X) ltac:(discriminate)) as Hl. destruct (split_line (c :: X)) as [l r]. cbn [snd] in Hl.
+  rewrite (IH f2 r) by (cbn [length] in *; lia). reflexivity.
+Qed.
+Lemma hdr_lines_length hs : (length hs <= length (flat_map hdr_line hs))%nat.
+Proof.
+  induction hs as [|h hs IH]; [cbn; lia|]. cbn [flat_map length]. rewrite app_length. unfold hdr_line at 1. rewrite !app_length. cbn [length CRLF COLON_SP]. lia.
+Qed.
+
+Lemma part_step bd p f acc dl r : bd_facts bd -> part_facts bd p ->
+  split_line (dl ++ r) = (dl, r) -> is_delim dl (strip_hyphens bd) = true -> dl <> [] -> (exists d', dl = bd ++ d') ->
+  parts_loop (S f) bd (part_text p ++ CRLF ++ dl ++ r) acc =
+  match r with [] => MOk (acc ++ [p]) | _ => parts_loop f bd r (acc ++ [p]) end.
+Proof.
+  intros Fb Fp Hsp Hdl Hne (d' & Ed). destruct p as [hs body]. cbn [p_headers p_body part_text] in *.
+  destruct Fp as [Hh Hm Hd Hl]. cbn [p_headers p_body] in *.
+  set (rest1 := body ++ CRLF ++ dl ++ r).
+  assert (Hr1 : rest1 <> []) by (unfold rest1; destruct body; discriminate).
+  cbn [parts_loop]. unfold part_text. cbn [p_headers p_body]. replace ((flat_map hdr_line hs ++ CRLF ++ body) ++ CRLF ++ dl ++ r) with (flat_map hdr_line hs ++ CRLF ++ rest1) by (unfold rest1; rewrite <- !app_assoc; reflexivity).
+  rewrite (headers_all bd hs [] _ rest1); auto.
+  - cbn [app]. replace rest1 with ((body ++ CRLF) ++ dl ++ r) by (unfold rest1; rewrite <- app_assoc; reflexivity).
+    rewrite (body_lines (strip_hyphens bd) dl r Hsp Hdl Hne).
+    + cbn [app]. rewrite trim_body_end_crlf. reflexivity.
+    + rewrite !app_length. lia.
+    + rewrite (lines_ok_more _ _ (S (length (body ++ CRLF)))); [exact Hl|rewrite !app_length; lia|lia].
+    + right. exists (body ++ [13]). rewrite <- app_assoc. reflexivity.
+  - destruct (strip_hyphens bd) eqn:E; [exfalso; exact (bf_esc bd Fb E)|reflexivity].
+  - pose proof (hdr_lines_length hs). rewrite !app_length. lia.
+Qed.
+
+Lemma tailf_cons bd p ps : tailf bd (p :: ps) = CRLF ++ part_text p ++ CRLF ++ bd ++ tailf bd ps.
+Proof. unfold tailf. cbn [flat_map]. rewrite <- !app_assoc. reflexivity. Qed.
+Lemma tailf_length bd ps : (length ps <= length (tailf bd ps))%nat.
+Proof. induction ps as [|p ps IH]; [cbn; lia|]. rewrite tailf_cons, !app_length. cbn [length CRLF]. lia. Qed.
+
+Lemma parts_all bd : bd_facts bd -> forall ps p acc f, Forall (part_facts bd) (p :: ps) -> (length ps < f)%nat ->
+  parts_loop f bd (part_text p ++ CRLF ++ bd ++ tailf bd ps) acc = MOk (acc ++ p :: ps).
+Proof.
+  intros Fb. induction ps as [|p2 ps IH]; intros p acc f HF Hf; inversion HF as [|? ? Fp HF']; subst; (destruct f as [|f]; [cbn in Hf; lia|]).
+  - cbn [tailf flat_map]. destruct (delim_last bd Fb) as [Hs Hd].
+    pose proof (part_step bd p f acc bd [] Fb Fp Hs Hd (bf_nonempty bd Fb) (ex_intro _ [] (eq_sym (app_nil_r bd)))) as G. exact G.
+  - rewrite tailf_cons. set (r := part_text p2 ++ CRLF ++ bd ++ tailf bd ps).
+    destruct (delim_mid bd r Fb) as [Hs Hd].
+    replace (part_text p ++ CRLF ++ bd ++ CRLF ++ r) with (part_text p ++ CRLF ++ (bd ++ CRLF) ++ r) by (rewrite <- !app_assoc; reflexivity).
+    rewrite (part_step bd p f acc (bd ++ CRLF) r Fb Fp Hs Hd); [|destruct bd; discriminate|exists CRLF; reflexivity].
+    assert (Hr : r <> []). { unfold r, part_text. destruct (flat_map hdr_line (p_headers p2)); discriminate. }
+    destruct r as [|r0 r'] eqn:Er; [contradiction|]. rewrite <- Er. unfold r.
+    rewrite IH by (auto; cbn [length] in Hf; lia). rewrite <- app_assoc. reflexivity.
+Qed.
+
+(* parsing what the writer produced, with the same boundary, returns the parts - any number of parts, any bodies *)
+Theorem multipart_round_trip bd ps : bd_ok bd = true -> forallb (part_ok bd) ps = true ->
+  multipart_parse (multipart_generate ps bd) bd = MOk ps.
+Proof.
+  intros Hb Hp. pose proof (bd_ok_facts bd Hb) as Fb. destruct (bd_first_line bd Fb) as (E1 & E2 & E3). destruct (bf_nolf bd Fb) as [N10 N13].
+  assert (HF : Forall (part_facts bd) ps) by (apply Forall_forall; intros p Hi; apply part_ok_facts; exact (forallb_in _ _ _ Hp Hi)).
+  unfold multipart_parse, multipart_generate. fold (tailf bd ps).
+  destruct ps as [|p ps].
+  - cbn [tailf flat_map]. rewrite app_nil_r. rewrite split_line_nolf_all by exact N10.
+    rewrite (ascii_utf8 _ (bf_ascii bd Fb)). cbn [negb]. rewrite E2, E3. cbn [negb length parts_loop header_phase].
+    change (split_line []) with (@nil N, @nil N). cbv iota. change (utf8_valid []) with true. change (filter_ascii_control []) with (@nil N). change (trim []) with (@nil N). change (beqs [] []) with true. cbn [negb].
+    assert (Hd : is_boundary_line [] bd = false).
+    { unfold is_boundary_line, ends_with. change (strip_hyphens []) with (@nil N). cbn [rev].
+      destruct (strip_hyphens bd) as [|x t] eqn:E; [exfalso; exact (bf_esc bd Fb E)|]. cbn [rev]. destruct (rev t ++ [x]) eqn:E4; [destruct (rev t); discriminate|reflexivity]. }
+    rewrite Hd. reflexivity.
+  - rewrite tailf_cons. destruct (delim_mid bd (part_text p ++ CRLF ++ bd ++ tailf bd ps) Fb) as [Hs _].
+    replace (bd ++ CRLF ++ part_text p ++ CRLF ++ bd ++ tailf bd ps) with ((bd ++ CRLF) ++ part_text p ++ CRLF ++ bd ++ tailf bd ps) by (rewrite <- app_assoc; reflexivity).
+    rewrite Hs. assert (Hu : utf8_valid (bd ++ CRLF) = true).
+    { apply ascii_utf8. pose proof (bf_ascii bd Fb) as Ha. unfold is_ascii in *. rewrite forallb_app, Ha. reflexivity. }
+    rewrite Hu. cbn [negb]. rewrite E1, E3. cbn [negb].
+    rewrite parts_all; [reflexivity|exact Fb|exact HF|]. pose proof (tailf_length bd ps). rewrite !app_length. lia.
 Qed.
